@@ -151,6 +151,26 @@ def check_equal(outs_a, outs_b, workdir, budget_s=600, seed=1, log=None, assume=
             return "equal", dict(st.__dict__, iterations=it, nodes=g.size())
         if time.time() - t_start > budget_s:
             break
+        if it in (0, 6) and len(aig.cone(g, [l for pr in diff for l in pr])) < 40000:
+            # small cone (adder networks of a MAC finalisation ...): one direct miter over all differing output pairs is
+            # often decided faster than refuting the many false internal candidates one by one
+            ms = [g.XOR(x, y) for x, y in diff]
+            if any(m == 1 for m in ms):
+                return "different", dict(st.__dict__, assignment={})
+            ms = [m for m in ms if m != 0]
+            if ms:
+                nv, cl, vm = aig.to_cnf(g, list(assume), any_of=ms)
+                st.sat_calls += 1
+                t1 = time.time()
+                res, model = kissat(nv, cl, min(90 if it == 0 else 240, max(5, budget_s - (time.time() - t_start))), workdir)
+                st.sat_time += time.time() - t1
+                if res == "unsat":
+                    st.unsat += 1
+                    return "equal", dict(st.__dict__, iterations=it, nodes=g.size(), closed_by="direct output miter")
+                if res == "sat":
+                    st.sat += 1
+                    return "different", dict(st.__dict__, assignment={g.names[k]: model.get(v, False) for k, v in vm.items() if g.kind[k] == 1})
+                st.unknown += 1
         # cut-point attempt on the differing output pairs: what the two cones share becomes free variables, so a pair
         # that differs only in the association of its last few operations is closed without the (huge) common cone
         if it > 0 and len(diff) <= 64 and not cut_done:
